@@ -950,6 +950,24 @@ pub fn shard(part: Part, seed: u64, tier: &str, from: u64, to: u64, out: &str) -
                     *sink.sh.fired.entry("isut_without_isstd".into()).or_insert(0) += 1;
                     sink.eval(Input { mode: "tzif".into(), hex: String::new(), expect: Expect::Reject, expected_debug: None, what: format!("{}; fault: UT/local indicator of type {} set while its standard/wall indicator is {}", what, one, if o2.isstd.is_empty() { "absent" } else { "0" }) }, &fb, &mut rng);
                 }
+                // B4. consistent files that announce no local time type at all, or no abbreviation
+                // bytes (RFC 8536: typecnt and charcnt MUST NOT be zero)
+                {
+                    let version = 1 + rng.below(3) as u8;
+                    let o0 = tzif::TzifOpts { version, fat_v1: rng.chance(1, 2), isstd: vec![], isut: vec![], share_suffix: false, footer: String::new() };
+                    let m0 = ZoneModel { types: vec![], trans: vec![], leaps: vec![], rule: None };
+                    let (fb, _) = tzif::write(&m0, &o0);
+                    *sink.sh.fired.entry("zero_types".into()).or_insert(0) += 1;
+                    sink.eval(Input { mode: "tzif".into(), hex: String::new(), expect: Expect::Reject, expected_debug: None, what: format!("consistent v{} file with typecnt = 0 and timecnt = 0", version) }, &fb, &mut rng);
+                    // one type with an empty abbreviation, then the single NUL of the table removed
+                    let m1 = ZoneModel { types: vec![crate::model::LType { utoff: gen::gen_utoff(&mut rng, 50_000), dst: false, abbr: String::new() }], trans: vec![], leaps: vec![], rule: None };
+                    let (mut fb, lay1) = tzif::write(&m1, &o0);
+                    fb.remove(lay1.chars.0);
+                    let at = lay1.hdr + 20 + 4 * 5;
+                    fb[at..at + 4].copy_from_slice(&0u32.to_be_bytes());
+                    *sink.sh.fired.entry("zero_chars".into()).or_insert(0) += 1;
+                    sink.eval(Input { mode: "tzif".into(), hex: String::new(), expect: Expect::Reject, expected_debug: None, what: format!("consistent v{} file with one type and charcnt = 0", version) }, &fb, &mut rng);
+                }
                 for _ in 0..faults_per_file(tier) {
                     let kind = *rng.pick(&FAULT_KINDS);
                     if let Some((fb, expect, desc)) = inject(kind, &bytes, &lay, &other, &mut rng) {
